@@ -5,6 +5,7 @@
 //! Oracle: brute force with the library's own metric object (so `d == eps` is decided on the very same
 //! floating-point value the library sees): N(i) = {j : d(i,j) <= eps}, core(i) <=> |N(i)| >= min_samples,
 //! connected components of the core graph. Model state is read through `serde_json::to_value(&model)`.
+use scverif::refla::csum;
 use scverif::*;
 use serde::Serialize;
 use smartcore::algorithm::neighbour::cover_tree::CoverTree;
@@ -563,8 +564,10 @@ where
 fn sig_of(b: Backend, mname: &str) -> &'static str {
     match (b, mname) {
         (Backend::Linear, "euclidean") => "linear/euclidean",
+        (Backend::Linear, "minkowski3") => "linear/minkowski3",
         (Backend::Linear, _) => "linear/manhattan",
         (Backend::Cover, "euclidean") => "covertree/euclidean",
+        (Backend::Cover, "minkowski3") => "covertree/minkowski3",
         (Backend::Cover, _) => "covertree/manhattan",
     }
 }
@@ -996,6 +999,30 @@ where
     };
     // distances for the choice of eps (the same values the oracle uses later)
     let dm: Vec<Vec<T>> = (0..n).map(|i| (0..n).map(|j| metric.distance(&pts[i], &pts[j])).collect()).collect();
+    // "for every metric": the metric object handed to DBSCAN has to be the metric it is named after — its values
+    // are compared with the closed form evaluated in f64 on the same (already rounded) coordinates
+    {
+        let tol = 64.0 * d as f64 * eps::<T>();
+        let mut worst: (f64, usize, usize, f64) = (0.0, 0, 0, 0.0);
+        for i in 0..n.min(40) {
+            for j in 0..n.min(40) {
+                let (a, b) = (fv(&pts[i]), fv(&pts[j]));
+                let r = match mname {
+                    "euclidean" => csum(a.iter().zip(b.iter()).map(|(x, y)| (x - y) * (x - y))).sqrt(),
+                    "manhattan" => csum(a.iter().zip(b.iter()).map(|(x, y)| (x - y).abs())),
+                    _ => csum(a.iter().zip(b.iter()).map(|(x, y)| (x - y).abs().powi(3))).cbrt(),
+                };
+                let got = f(dm[i][j]);
+                let q = if got == r { 0.0 } else if r > 0.0 && got.is_finite() { (got - r).abs() / (tol * r) } else { f64::INFINITY };
+                if q > worst.0 {
+                    worst = (q, i, j, r);
+                }
+            }
+        }
+        c.ratio("metric.closed-form", worst.0, 1.0, &format!("{}/{}", mname, width::<T>()), || {
+            format!("distance(points[{}], points[{}]) = {:e}, closed form {:e}", worst.1, worst.2, f(dm[worst.1][worst.2]), worst.3)
+        });
+    }
     let (eps, ekind) = match force {
         Some((e, _)) if t::<T>(e) > T::zero() => (t::<T>(e), "constructed"),
         _ => draw_eps::<T>(&mut c.rng, &dm, ms),
@@ -1009,7 +1036,7 @@ where
     for p in &pts {
         c.hash_f64s(&fv(p));
     }
-    c.hash_f64s(&[f(eps), ms as f64, d as f64, if mname == "euclidean" { 1.0 } else { 2.0 }, if width::<T>() == "f32" { 1.0 } else { 2.0 }]);
+    c.hash_f64s(&[f(eps), ms as f64, d as f64, if mname == "euclidean" { 1.0 } else if mname == "manhattan" { 2.0 } else { 3.0 }, if width::<T>() == "f32" { 1.0 } else { 2.0 }]);
     c.bucket(&format!("width:{}", width::<T>()));
     c.bucket(&format!("metric:{}", mname));
     c.bucket(&format!("dims:{}", d));
@@ -1040,12 +1067,15 @@ where
 fn run_random(c: &mut Case, g: fn(&mut Rng) -> Gen) {
     let (pts, kind, force) = g(&mut c.rng);
     let f32w = c.rng.bool(0.2);
-    let manh = c.rng.bool(0.4);
-    match (f32w, manh) {
-        (false, false) => run_random_t::<f64, _>(c, pts, kind, force, Distances::euclidian(), "euclidean"),
-        (false, true) => run_random_t::<f64, _>(c, pts, kind, force, Distances::manhattan(), "manhattan"),
-        (true, false) => run_random_t::<f32, _>(c, pts, kind, force, Distances::euclidian(), "euclidean"),
-        (true, true) => run_random_t::<f32, _>(c, pts, kind, force, Distances::manhattan(), "manhattan"),
+    let m = c.rng.below(10);
+    let which = if m < 5 { 0 } else if m < 8 { 1 } else { 2 };
+    match (f32w, which) {
+        (false, 0) => run_random_t::<f64, _>(c, pts, kind, force, Distances::euclidian(), "euclidean"),
+        (false, 1) => run_random_t::<f64, _>(c, pts, kind, force, Distances::manhattan(), "manhattan"),
+        (false, _) => run_random_t::<f64, _>(c, pts, kind, force, Distances::minkowski(3), "minkowski3"),
+        (true, 0) => run_random_t::<f32, _>(c, pts, kind, force, Distances::euclidian(), "euclidean"),
+        (true, 1) => run_random_t::<f32, _>(c, pts, kind, force, Distances::manhattan(), "manhattan"),
+        (true, _) => run_random_t::<f32, _>(c, pts, kind, force, Distances::minkowski(3), "minkowski3"),
     }
 }
 
